@@ -61,7 +61,7 @@ package engine
 //@   requires cycle == $runBegin
 //@   requires $evalStamp[entry] == $stamp && $evalCnt[entry] == 1 && $evalCand[entry] == candidate
 //@   requires $notifStamp[entry] != $stamp
-//@   requires[C10,C06] onlyactive: entry != nil && active(entry)
+//@   requires[C10,C06,C16] onlyactive: entry != nil && active(entry)
 //@   nopanic
 //@   modifies @evlog
 //@   ensures delivered(g, old($evN), 2, cycle) && logKept(old($evN))
@@ -101,7 +101,7 @@ package engine
 //@ macro func RE(kb *ast.KnowledgeBase, k string) *ast.RuleEntry { return kb.RuleEntries[k] }
 
 //@ func (g *GruleEngine) ExecuteWithContext(ctx, dataCtx, knowledge) (err)
-//@   serves C03 C06 C08 C10 C14 C15 C01 C02 C13
+//@   serves C03 C06 C08 C10 C14 C15 C01 C02 C13 C16
 //@   opt alloc=1
 //@   requires wfEngine(g) && ctx != nil
 //@   requires 0 <= g.MaxCycle && g.MaxCycle < MaxUint64
@@ -166,7 +166,7 @@ package engine
 // non-increasing salience; no action is executed (frame: $runExec, $loc and every fact location are not in modifies).
 // ---------------------------------------------------------------------------------------------------------
 //@ func (g *GruleEngine) FetchMatchingRules(dataCtx, knowledge) (res, err)
-//@   serves C11 C08
+//@   serves C11 C08 C16
 //@   requires g != nil
 //@   requires knowledge != nil ==> knowledge.WorkingMemory != nil && KBInv(knowledge) && WMInv(knowledge.WorkingMemory)
 //@   requires ghostWF() && $depth == 0 && !$inAction && treeWF()
@@ -174,14 +174,14 @@ package engine
 //@   modifies @memo, $exprRes, $varRes, $atomRes, $resetAllN, @setlog, @ctxghost, alloc, ast.BuiltInFunctions.*, ast.KnowledgeBase.DataContext, ast.RuleEntry.Retracted, $stamp, $evalStamp, $evalCnt, $evalCand, $evalFailed, $addFailed, $sinceExec
 //@   ghost_entry $stamp = $stamp + 1
 //@   ghost_entry $evalFailed = false
-//@   ensures[C11] members: err == nil ==> (forall k int :: 0 <= k && k < len(res) ==> res[k] != nil && candNow(res[k]) && !res[k].Deleted)
+//@   ensures[C11,C16] members: err == nil ==> (forall k int :: 0 <= k && k < len(res) ==> res[k] != nil && candNow(res[k]) && !res[k].Deleted)
 //@   ensures[C11] once: err == nil ==> (forall a int, b int :: 0 <= a && a < b && b < len(res) ==> res[a] != res[b])
 //@   ensures[C11] complete: err == nil && knowledge != nil ==> (forall re *ast.RuleEntry :: candNow(re) ==> (exists k int :: 0 <= k && k < len(res) && res[k] == re))
 //@   ensures[C11] allevaluated: err == nil && knowledge != nil ==> (forall k string :: has(knowledge.RuleEntries, k) && !RE(knowledge, k).Deleted ==> $evalStamp[RE(knowledge, k)] == $stamp && $evalCnt[RE(knowledge, k)] == 1)
 //@   ensures[C11] sorted: err == nil ==> (forall a int, b int :: 0 <= a && a < b && b < len(res) ==> res[a].Salience >= res[b].Salience)
 //@   ensures[C11] evalerr: $evalFailed && g.ReturnErrOnFailedRuleEvaluation ==> err != nil && len(res) == 0
 //@   invariant@1[C08,C11] fresh: $i == 0 ==> memoClear(knowledge.WorkingMemory) && noneRetracted(knowledge) && knowledge.DataContext == dataCtx
-//@   invariant@1 runnable: forall k int :: 0 <= k && k < len(runnable) ==> runnable[k] != nil && candNow(runnable[k]) && !runnable[k].Deleted
+//@   invariant@1[C11,C16] runnable: forall k int :: 0 <= k && k < len(runnable) ==> runnable[k] != nil && candNow(runnable[k]) && !runnable[k].Deleted
 //@   invariant@1 distinct: forall a int, b int :: 0 <= a && a < b && b < len(runnable) ==> runnable[a] != runnable[b]
 //@   invariant@1 allcands: forall re *ast.RuleEntry :: candNow(re) ==> (exists k int :: 0 <= k && k < len(runnable) && runnable[k] == re)
 //@   invariant@1 done: forall j int :: 0 <= j && j < $i && !RE(knowledge, $keys[j]).Deleted ==> $evalStamp[RE(knowledge, $keys[j])] == $stamp && $evalCnt[RE(knowledge, $keys[j])] == 1
